@@ -176,6 +176,20 @@ def reg_changes_literals(tree):
                     post += 1
     if post != 1:
         raise TranslateError("get_reg_changes: post-indexed change is not `\"value\": o.post_indexed[\"value\"]`")
+    # ... and only if there is one: a post-index without "value" (post-indexed by a register, `ld1 {v0.4s}, [x0], x1`) is
+    # reported as an unknown change -- `if "value" not in o.post_indexed: return {base_name: None}` (Isa.Val.absent)
+    guard = 0
+    for node in ast.walk(fn):
+        if isinstance(node, ast.If) and isinstance(node.test, ast.Compare) and len(node.test.ops) == 1 \
+                and isinstance(node.test.ops[0], ast.NotIn) and isinstance(node.test.left, ast.Constant) and node.test.left.value == "value" \
+                and isinstance(node.test.comparators[0], ast.Attribute) and node.test.comparators[0].attr == "post_indexed" \
+                and not node.orelse and len(node.body) == 1 and isinstance(node.body[0], ast.Return) \
+                and isinstance(node.body[0].value, ast.Dict) and len(node.body[0].value.values) == 1 \
+                and isinstance(node.body[0].value.values[0], ast.Constant) and node.body[0].value.values[0].value is None:
+            guard += 1
+    if guard != 1:
+        raise TranslateError("get_reg_changes: no `if \"value\" not in o.post_indexed: return {base_name: None}` before the "
+                             "post-indexed change (a post-index by a register would raise KeyError)")
     return fmt[0], inits[0], pre[0]
 
 
